@@ -251,8 +251,6 @@ def judgeFinish (s : JudgeSt) : String :=
       | some cfg =>
         let h := s.pev.reverse
         if pholds cfg.attempts h then "ok"
-        else if findingF17a cfg.attempts h then
-          s!"fail F17a policy-mode-retry-although-attempts={cfg.attempts}-below-1"
         else s!"fail - policy-budget-violated attempts={cfg.attempts} events={h.length}"
 
 def main (args : List String) : IO Unit :=
